@@ -1,6 +1,8 @@
 package props
 
 import (
+	"github.com/parquet-go/parquet-go/encoding/thrift"
+	"bytes"
 	"errors"
 	"fmt"
 	"io"
@@ -145,6 +147,7 @@ type chunkMeta struct {
 	Encodings string
 	PageTypes string
 	Bloom     bool
+	BloomKind string // compression declared by the bloom filter header
 	ColIndex  bool
 	OffIndex  bool
 }
@@ -513,6 +516,36 @@ func c11Execute(c *core.Ctx, sc *C11Scenario, sh gen.Shape, data, pre gen.Data, 
 			}
 		}
 	}
+	// ColumnIndexSizeLimit of the destination: no byte array bound of the page index is
+	// longer (a max value whose kept prefix is all 0xFF cannot be shortened and stays whole)
+	if lim := sc.DstW.IndexSizeLimit; lim > 0 {
+		for gi, rg := range f.RowGroups() {
+			for ci, cc := range rg.ColumnChunks() {
+				if cc.Type().Kind() != parquet.ByteArray {
+					continue
+				}
+				ix, err := cc.ColumnIndex()
+				if err != nil || ix == nil {
+					continue
+				}
+				for p := 0; p < ix.NumPages(); p++ {
+					if ix.NullPage(p) {
+						continue
+					}
+					for which, b := range [][]byte{ix.MinValue(p).Bytes(), ix.MaxValue(p).Bytes()} {
+						if len(b) <= lim || (which == 1 && allFF(b[:lim])) {
+							continue
+						}
+						path := "fast"
+						if rowPath {
+							path = "row"
+						}
+						return nil, nil, core.Violate("C11/index-size-limit-not-honoured/"+sc.Source+"/"+path, "row group %d column %d page %d: a bound of %d bytes in the column index, ColumnIndexSizeLimit is %d", gi, ci, p, len(b), lim)
+					}
+				}
+			}
+		}
+	}
 	md := f.Metadata()
 	pages, _, lerr := fileLayout(o.bytes)
 	if lerr != nil {
@@ -556,7 +589,7 @@ func c11Execute(c *core.Ctx, sc *C11Scenario, sh gen.Shape, data, pre gen.Data, 
 				}
 			}
 			cm := chunkMeta{Codec: m.Codec.String(), Encodings: setString(encs), PageTypes: setString(ptypes[[2]int{gi, ci}]),
-				Bloom: m.BloomFilterOffset != 0, ColIndex: col.ColumnIndexOffset != 0, OffIndex: col.OffsetIndexOffset != 0}
+				Bloom: m.BloomFilterOffset != 0, BloomKind: bloomHeaderKind(o.bytes, m.BloomFilterOffset), ColIndex: col.ColumnIndexOffset != 0, OffIndex: col.OffsetIndexOffset != 0}
 			if o.meta[ci] == nil {
 				o.meta[ci] = map[chunkMeta]bool{}
 			}
@@ -724,4 +757,26 @@ func bloomSpecs(w gen.WOpts) []gen.BloomSpec {
 		return nil
 	}
 	return w.Bloom
+}
+
+// bloomHeaderKind decodes the bloom filter header at off and names its compression.
+func bloomHeaderKind(file []byte, off int64) string {
+	if off <= 0 || off >= int64(len(file)) {
+		return ""
+	}
+	var h format.BloomFilterHeader
+	proto := thrift.CompactProtocol{}
+	if err := thrift.NewDecoder(proto.NewReader(bytes.NewReader(file[off:]))).Decode(&h); err != nil {
+		return "undecodable"
+	}
+	return fmt.Sprintf("%T", h.Compression.Value)
+}
+
+func allFF(b []byte) bool {
+	for _, x := range b {
+		if x != 0xFF {
+			return false
+		}
+	}
+	return true
 }
